@@ -42,7 +42,11 @@ def main():
             return 3
         print(("REPRODUCED " if breached else "NOT-REPRODUCED ") + str(detail))
         return 1 if breached else 0
-    res = mod.standin(a.tier, a.seed)
+    try:
+        res = mod.standin(a.tier, a.seed)
+    except Exception:  # noqa: BLE001   (a failure of the harness itself: exit 3, never 1)
+        traceback.print_exc()
+        return 3
     if a.out:
         with open(a.out, "w") as f:
             json.dump(res, f, indent=1, default=str)
